@@ -46,6 +46,12 @@ func exec(op string) vlib.Res {
 		return execWild(f)
 	case "ad hitchase":
 		return execAdHitChase(f)
+	case "ad hitfail":
+		return execAdHitFail(f)
+	case "ad cut":
+		return execAdCut(f)
+	case "store priv":
+		return execStorePriv(f)
 	case "signers find":
 		return execSigners(f)
 	case "wild answer":
@@ -121,7 +127,13 @@ func gen(r *vlib.R, n int, tier string, emit func(string)) {
 	}
 	rest := n - n*9/20
 	for rest > 0 {
-		switch k := r.Intn(31); {
+		switch k := r.Intn(34); {
+		case k == 31:
+			emit(genStorePriv(r))
+		case k == 32:
+			emit(genAdCut(r))
+		case k == 33:
+			emit(genAdHitFail(r))
 		case k == 29:
 			emit(genN3(r))
 		case k == 30:
